@@ -11,7 +11,7 @@ from common import hx
 LEAN_MODULES = ["Pff.Props.C05"]
 PROP_MODULE = "Pff.Props.C05"
 THEOREMS = ["Pff.Rfigc.C05_rule", "Pff.Rfigc.C05_clean", "Pff.Rfigc.C05_exact", "Pff.Rfigc.C05_single"]
-MODELLED = [("pyFileFixity/rfigc.py", "main"), ("pyFileFixity/rfigc.py", "generate_hashes")]
+MODELLED = [("pyFileFixity/rfigc.py", "main"), ("pyFileFixity/rfigc.py", "generate_hashes"), ("pyFileFixity/lib/_compat.py", "_csv_writer")]
 TRUSTED_BASE = [
     "Lean 4.33.0 kernel; axioms per theorem under coverage.theorems (subset of propext, Classical.choice, Quot.sound)",
     "hand-written model lean/Pff/Model/Rfigc.lean (rows, difference rules, single-file filter), tied to /repo by running the real "
@@ -156,6 +156,14 @@ def run(oc, tier, seed, model_available, escalate):
         for o, v in opts.items():
             if v:
                 oc.count("opt:" + o)
+    # ---- csv layer: the repo's writer and Python's reader with the tools' parameters vs the Lean model (Pff.Csv), and the real round trip
+    import csv_x
+    cl, ci, cbad = csv_x.cases(rng, (150 if tier == "quick" else 2500) * (2 if escalate else 1), os.path.join(d, "csv"), oc)
+    lines += cl
+    impl += ci
+    for b_ in cbad[:3]:
+        oc.violations.append({"input": {"rows": b_["rows"]}, "impl": {"text": b_["text"], "read_back": b_["read_back"]},
+                              "what": "rows written to a csv file with the tools' writer are not read back identically by the tools' reader"})
     ru.rmtree(d)
     if model_available:
         model, err = common.run_driver(lines)
